@@ -396,6 +396,21 @@ func diffClass(got, want string) string {
 	return "order"
 }
 
+// hasFromEndSlice: a slice with a negative start or end, or a step that is not positive.
+func hasFromEndSlice(ts []Target) bool {
+	for _, tg := range ts {
+		for _, f := range tg {
+			if f.K != 's' {
+				continue
+			}
+			if len(f.Sl) > 0 && f.Sl[0] < 0 || len(f.Sl) > 1 && f.Sl[1] < 0 || len(f.Sl) > 2 && f.Sl[2] <= 0 {
+				return true
+			}
+		}
+	}
+	return false
+}
+
 // onlyExtraScalars: want is a subsequence of got and every additional item of got is a scalar.
 func onlyExtraScalars(got, want string) bool {
 	g, w := items(got), items(want)
@@ -484,7 +499,13 @@ func judge(cr *caseRun, ans []string) {
 	if cr.okSen && !dup && descentQuirk(cr.expSen) {
 		cr.expSen = spec
 	}
-	if cr.okOj && !dup && spec != cr.expOj {
+	if cr.okOj && !dup && spec != cr.expOj && hasFromEndSlice(c.Targets) {
+		// Locate reads a negative end of a slice as inclusive and clamps a start beyond the length,
+		// Get's inner branch selects the start element of an empty range ([1:-1:2] on two
+		// elements): for slices with bounds from the end or a backward step the two agree with
+		// each other only by accident, and there is no reference to compare the specification with.
+		rep.Count("evaluator.slice-from-end-corner", 1)
+	} else if cr.okOj && !dup && spec != cr.expOj {
 		add("disagreement", "spec-vs-locate", "the Lean specification's expected callbacks differ from parse + Locate + First",
 			cr.replayOf(map[string]any{"spec": spec, "locate": cr.expOj}))
 	}
